@@ -576,4 +576,7 @@ class ServeMpsMedia(MediaRequestBase):
                 # origin_time += representation.mediaDuration
                 # mod_seg -= representation.num_media_segments
                 # assert mod_seg > 0
+        if seg_num is None:
+            # $Time$ based request: number the fragment by its position in the source
+            seg_num = mod_seg
         return SegmentPosition(mod_seg, origin_time, seg_num)
